@@ -559,7 +559,8 @@ def scaled_init_case(dfols, seed):
     rng = np.random.default_rng(seed)
     n = int(rng.integers(1, 5))
     xl = np.round(rng.uniform(-3, 1, size=n), int(rng.integers(1, 3)))
-    xu = xl + np.round(rng.uniform(0.5, 4, size=n), int(rng.integers(1, 3)))
+    # both bounds short decimal literals (xu is NOT built as xl + width: then xl + (xu - xl) would reproduce it)
+    xu = np.round(xl + rng.uniform(0.5, 4, size=n), int(rng.integers(1, 3)))
     x0 = xl + (xu - xl) * rng.uniform(0, 1, size=n)
     for j in range(n):
         u = rng.random()
